@@ -10,7 +10,9 @@ standard bit positions" = `oui_ei_split`, `iab_split`, `splitIabMac_spec`; "EUIs
 hash by (version, value) regardless of dialect" = `eq_hash_by_value`; "word indexing /
 assignment under the object's own dialect … never fail because of the dialect chosen" =
 `getIdx_spec`, `setItem_spec`, `setItem_reject`; the text round trip and the accepted
-spellings are further down (`roundtrip_*`, `spellings`).
+spellings are further down (`roundtrip_*`, `spellings`).  Second part in Props/C08Ext.lean:
+exception classes of the constructor the driver runs (`ofAnyF`), decimal-string fallback, final
+newline, slicing, `format(dialect)`, `is_iab` / `iab` on EUI-64 receivers.
 -/
 import NetaddrVerif.Lemmas.C08L
 import NetaddrVerif.Lemmas.C08LText
